@@ -499,6 +499,11 @@ func (ca *clusterAdmin) AlterPartitionReassignments(topic string, assignment [][
 		if err != nil {
 			errs = append(errs, err)
 		} else {
+			if rsp.ErrorCode == ErrNotController {
+				_, _ = ca.refreshController()
+				return rsp.ErrorCode
+			}
+
 			if rsp.ErrorCode > 0 {
 				errs = append(errs, errors.New(rsp.ErrorCode.Error()))
 			}
